@@ -185,6 +185,11 @@ class MessagePackDocument(HierDictDocument):
         if isinstance(value, (six.text_type, six.binary_type)):
             return super(MessagePackDocument, self) \
                                                 .integer_from_bytes(cls, value)
+
+        if isinstance(value, NON_NUMBER_TYPES):
+            # a list or a map is not a number, like in _ret_number
+            raise ValidationError(value)
+
         return value
 
     def integer_to_bytes(self, cls, value, **_):
